@@ -6,6 +6,9 @@ feed the servo, and that no handler other than the BMCA decision S1 ever makes a
 -/
 namespace Statime
 
+/-- the four per-type sequence counters of a port -/
+def Port.seqs (p : Port) : Nat × Nat × Nat × Nat := (p.annSeq, p.syncSeq, p.delaySeq, p.pdelaySeq)
+
 /-- message type of a frame in an action -/
 def Out.sendType : Out → Option MsgType
   | .sendEvent _ b _ => MsgType.ofNibble (byteAt b 0 % 16)
@@ -53,6 +56,11 @@ theorem guarded_plain (ma sl : Bool) (outs : List Out)
   intro o ho
   obtain ⟨h1, h2⟩ := h o ho
   exact ⟨(by intro ty e; rw [h1] at e; cases e), (by intro m e; exact absurd e (h2 m))⟩
+
+theorem map_ok {α β : Type} (x : R α) (f : α → β) (b : β) (h : (x.map f) = .ok b) : ∃ a, x = .ok a ∧ f a = b := by
+  cases x with
+  | error e => cases h
+  | ok a => exact ⟨a, rfl, by simpa [Except.map] using h⟩
 
 /-- what every port-level handler preserves: configuration, identity, and "not newly Slave" -/
 def KeepsW (p p' : Port) : Prop :=
@@ -373,17 +381,14 @@ theorem sendAnnounce_roles (p p' : Port) (s : InstState) (q q' : List FwdTlv) (l
   split at hr
   · rename_i hm
     have hma : p.st.isMaster = true := (isMaster_iff _).2 hm
-    simp only [bind, Except.bind] at hr
-    split at hr
-    · cases hr
-    · simp only [Except.ok.injEq, Prod.mk.injEq] at hr
-      rw [← hr.1, ← hr.2.1]
-      refine ⟨?_, rfl, rfl, fun h => h, rfl, fun h => h⟩
-      rename_i v _
-      have : ∀ (m : Msg) (r : Out), ([r, Out.sendGeneral (encode m) false] : List Out) = [r] ++ [Out.sendGeneral (encode m) false] :=
-        fun _ _ => rfl
-      rw [this]
-      exact guarded_append (guarded_reset _ _ _ _) (guarded_send_general _ _ _ _ (fun _ => hma) (by intro e; cases e))
+    obtain ⟨r, _, he⟩ := map_ok _ _ _ hr
+    simp only [Prod.mk.injEq] at he
+    rw [← he.1, ← he.2.1]
+    refine ⟨?_, rfl, rfl, fun h => h, rfl, fun h => h⟩
+    have : ∀ (m : Msg) (r : Out), ([r, Out.sendGeneral (encode m) false] : List Out) = [r] ++ [Out.sendGeneral (encode m) false] :=
+      fun _ _ => rfl
+    rw [this]
+    exact guarded_append (guarded_reset _ _ _ _) (guarded_send_general _ _ _ _ (fun _ => hma) (by intro e; cases e))
   · simp only [Except.ok.injEq, Prod.mk.injEq] at hr
     rw [← hr.1, ← hr.2.1]; exact ⟨guarded_nil _ _, keeps_refl _⟩
 
@@ -587,11 +592,6 @@ theorem handleAnnounce_roles (p p' : Port) (s s' : InstState) (m : Msg) (ab : An
       rw [← hr.1, ← hr.2.2]; exact ⟨(by intro o ho; cases ho), keeps_refl _⟩
     · simp only [Except.ok.injEq, Prod.mk.injEq] at hr
       rw [← hr.1, ← hr.2.2]; exact announceRegister_roles p m _
-
-theorem map_ok {α β : Type} (x : R α) (f : α → β) (b : β) (h : (x.map f) = .ok b) : ∃ a, x = .ok a ∧ f a = b := by
-  cases x with
-  | error e => cases h
-  | ok a => exact ⟨a, rfl, by simpa [Except.map] using h⟩
 
 theorem handleGeneralInternal_roles (p p' : Port) (s s' : InstState) (m : Msg) (outs : List Out)
     (hr : p.handleGeneralInternal s m = .ok (p', s', outs)) : Guarded p.st.isMaster p.st.isSlave outs ∧ Keeps p p' := by
